@@ -118,3 +118,44 @@ Definition no_controls_b (bytes : str) : bool := (others_of (events bytes) =? 0)
 
 Definition all_plain_noncontrol (segs : list aseg) : bool :=
   forallb (fun g => negb (a_ctl g) && plain_text (a_text g)) segs.
+
+(* ------------------------------------------------------------------ histories *)
+(* the fields of the current object after a derivation (memo-free: this is the SPEC side) *)
+Definition hop_style (s : style) (op : hop) : style :=
+  match op with
+  | HRender _ _ => s
+  | HWithoutColor => style_without_color s
+  | HCopy => fst (obj_copy (s, None))
+  | HUpdateLink l => style_update_link true s l
+  | HAddRight b => fst (obj_add (s, None) (b, None))
+  | HAddLeft b => fst (obj_add (b, None) (s, None))
+  end.
+
+(* everything the property says about ONE write of Segment(text, s) by console k *)
+Definition render_ok_b (k : cfg) (s : style) (text lid out : str) : bool :=
+  stream_means_b k [mkASeg text (Some s) lid None false] out
+  && (negb (k_no_color k) || no_color_params_b out)
+  && match k_system k with None => no_escape_b out | Some _ => true end
+  && (k_terminal k || no_controls_b out).
+
+(* every write of a history is right for the style the object has at that moment,
+   whatever was rendered or derived before *)
+Fixpoint hist_ok_b (lid : str) (s : style) (ops : list hop) (outs : list str) : bool :=
+  match ops with
+  | [] => match outs with [] => true | _ => false end
+  | HRender k text :: r =>
+      match outs with
+      | out :: outs' => render_ok_b k s text lid out && hist_ok_b lid s r outs'
+      | [] => false
+      end
+  | op :: r => hist_ok_b lid (hop_style s op) r outs
+  end.
+
+(* the inputs the history theorems quantify over *)
+Definition hop_ok (op : hop) : bool :=
+  match op with
+  | HRender k text => plain_text text && k_fix_d16 k
+  | HUpdateLink (Some l) => link_ok l
+  | HAddRight b | HAddLeft b => style_wf b
+  | _ => true
+  end.
